@@ -509,6 +509,7 @@ func superviseMain(args map[string]string) {
 		}
 	}
 	res.Distinct = len(set)
+	_ = os.RemoveAll(hashDir) // the deferred removal does not run on the os.Exit(1) path below
 
 	known := loadKnown()
 	seenKnown := map[string]bool{}
